@@ -301,7 +301,7 @@ def check_tf(case, rec):
           return
         continue
       try:
-        base = tf_ref.apply_stored(case["second"], so_state, k, gk, merge_dims=2, block=4, masked_tree=None)
+        base, ebase = tf_ref.apply_stored(case["second"], so_state, k, gk, merge_dims=2, block=4, masked_tree=None, with_bound=True)
       except tf_ref.Unsupported as e:
         rec.skip("tf-ref-unsupported:%s" % e)
         continue
@@ -310,7 +310,7 @@ def check_tf(case, rec):
       nu = np.linalg.norm(uk)
       if gtype == grafting.GraftingType.NONE:
         rec.count("tf_direction_checked")
-        if np.max(np.abs(uk + base)) > 2e-4 * max(np.max(np.abs(base)), 1e-30) + 1e-30:
+        if np.any(np.abs(uk + base) > 2e-4 * max(np.max(np.abs(base)), 1e-30) + ebase + 1e-30):
           rec.violation("tf-none-graft-not-direction", "Tearfree NONE grafting: update differs from the second-order direction", wit)
           return
         continue
@@ -321,13 +321,14 @@ def check_tf(case, rec):
           return
         continue
       ngr = np.linalg.norm(gr)
-      if abs(nu - ngr) > 5e-5 * ngr + 1e-30:
+      rel_dir_err = float(np.linalg.norm(ebase) / nb)
+      if abs(nu - ngr) > (5e-5 + 4 * rel_dir_err) * ngr + 1e-30:
         rec.violation("tf-norm-not-transplanted", "Tearfree step %d leaf %s graft %s %s: ||update|| %.8g != ||graft step|| %.8g" % (t, k, case["graft"], case["second"], nu, ngr), wit)
         return
       rec.count("tf_direction_checked")
       ref = -base * (ngr / nb)
       tol = 5e-4 if case["second"] == "sketchy" else 2e-4
-      if np.max(np.abs(uk - ref)) > tol * np.max(np.abs(ref)) + 1e-30:
+      if np.any(np.abs(uk - ref) > tol * np.max(np.abs(ref)) + (ebase + np.abs(base) * rel_dir_err) * (ngr / nb) + 1e-30):
         rec.violation("tf-direction-not-preconditioned-gradient", "Tearfree step %d leaf %s graft %s %s: update not parallel to the stored preconditioner applied to the gradient (rel %.3g)" % (
             t, k, case["graft"], case["second"], np.max(np.abs(uk - ref)) / np.max(np.abs(ref))), wit)
         return
